@@ -219,6 +219,13 @@ class Result:
         self.violations.append(v)
 
     def sample(self, s, limit=6):
+        """s: a sample or a zero-argument callable producing one (an IndexError / KeyError while building it,
+        e.g. because every program of the corpus was rejected, just skips the sample)."""
+        if callable(s):
+            try:
+                s = s()
+            except (IndexError, KeyError, StopIteration, TypeError):
+                return
         if len(self.cov["samples"]) < limit:
             self.cov["samples"].append(s)
 
